@@ -129,6 +129,13 @@ def main():
         audit_problems += hits
         for p in audit_problems:
             broken.append(('audit', p))
+    leanchecker = None
+    if not broken and a.tier == 'thorough':
+        # independent re-check of the compiled property module by Lean's external checker
+        rc, lout = run(['lake', 'env', 'leanchecker', lean_module], cwd=LEAN, timeout=3000)
+        leanchecker = 'ok' if rc == 0 and not lout.strip() else lout.strip()[-300:]
+        if leanchecker != 'ok':
+            broken.append(('leanchecker', leanchecker))
     failed_names = {b[0] for b in broken}
     obligations = len(thms)
     discharged = 0 if any(b[0] in ('translator', 'audit', lean_module) for b in broken) else \
@@ -236,7 +243,7 @@ def main():
         'streams': ctx.streams, 'input_distribution': ctx.dist,
         'model_drift': ctx.drift[:5], 'partial': list(getattr(mod, 'PARTIAL', [])) + ctx.partial,
         'known_findings_replayed': replayed, 'known_finding_hits': sum(1 for f in ctx.failures if f.get('known_finding')),
-        'notes': ctx.notes,
+        'notes': ctx.notes, 'leanchecker': leanchecker,
     }
     if infra_error:
         cov['infrastructure_error'] = infra_error[-1500:]
